@@ -681,6 +681,8 @@ INT_POINTS = {
     "shear": (("simple_shear_2d", ("X", "Z", 1.0)), [3, 0, 2], [0.5, 0.0, 0.5], [4.5, 0.0, 3.5], 5.0),
     "shear_neg": (("simple_shear_2d", ("X", "Z", 1.0)), [1, 0, -2], [-2.5, 0.0, -3.5], [1.5, 0.0, -0.5], 5.0),
     "corner": (("corner_2d", ("X", "Z", 1.0)), [2, 0, -2], [0.0, 0.0, -3.25], [4.5, 0.0, 0.0], 3.0),
+    "corner_fast": (("corner_2d", ("X", "Y", 2.5)), [3, -4, 0], [0.0, -6.5, 0.0], [8.5, 0.0, 0.0], 2.0),
+    "cell": (("cell_2d", ("X", "Z", 1.0)), [0, 0, 0], [-0.75, 0.0, -0.75], [0.75, 0.0, 0.75], 1.0),
 }
 
 
@@ -704,6 +706,17 @@ def run_intpoint(key):
             outs[tag] = (t, np.array([np.asarray(f(tt), float) for tt in t]))
         except Exception as e:
             outs[tag] = e
+    # the velocity and gradient callables at the integer-typed point itself (seed C18i:
+    # output arrays taking the element type of the position array)
+    _add(res, "position_dtype_irrelevant")
+    try:
+        xi, xf = np.array(x0, dtype=np.int64), np.array(x0, dtype=float)
+        ui, uf = np.asarray(u(0.0, xi), float), np.asarray(u(0.0, xf), float)
+        Li, Lf = np.asarray(L(0.0, xi), float), np.asarray(L(0.0, xf), float)
+        if not (np.array_equal(ui, uf, equal_nan=True) and np.array_equal(Li, Lf, equal_nan=True)):
+            res["viol"].append({"clause": "position_dtype_irrelevant", "key": dict(key), "detail": {"u_int": ui, "u_float": uf}})
+    except Exception as e:
+        res["viol"].append({"clause": "position_dtype_irrelevant", "key": dict(key, exc=type(e).__name__), "detail": {"exception": repr(e)[:200]}})
     res["states"] = 2
     _add(res, "end_point_dtype_irrelevant")
     a, b = outs["float64"], outs["int64"]
